@@ -380,3 +380,522 @@ Proof.
         change (s_ct_byte (st_adv s0 c_pct r')) with (s_ct_byte s0). exact Ht1.
       * rewrite run_str_text. exact Htext.
 Qed.
+
+
+(** ** the end of the literal *)
+Definition st_upd' (Y : st) (t : tok) (ts : list tok) (ch : TokenChannel) (ty : TokenType) (pl : payload) : st :=
+  Y <| s_buf := (s_buf Y) <| w_toks := mkTok ch ty (t_byte t) (t_start t) (t_line t) pl :: ts |> |>.
+
+Lemma st_upd_eq Y t ts ch ty pl : w_toks (s_buf Y) = t :: ts -> st_upd Y ch ty pl = st_upd' Y t ts ch ty pl.
+Proof. intros H. unfold st_upd, st_upd'. rewrite H. reflexivity. Qed.
+
+Lemma suffix_hex l ty extra : suffix_model l = (ty, extra) -> tt_eqb ty T_HexStringLiteral = true ->
+  exists x r, l = x :: r /\ is_cc 120 88 x = true /\ extra = 1.
+Proof.
+  intros Esuf Eh. unfold suffix_model in Esuf. destruct l as [|x r]; [inversion Esuf; subst; discriminate|].
+  exists x, r. split; [reflexivity|].
+  destruct (is_cc 98 66 x); [inversion Esuf; subst; discriminate|].
+  destruct (is_cc 100 68 x); [destruct (is_cc 116 84 _); inversion Esuf; subst; discriminate|].
+  destruct (is_cc 110 78 x); [inversion Esuf; subst; discriminate|].
+  destruct (is_cc 116 84 x); [inversion Esuf; subst; discriminate|].
+  destruct (is_cc 120 88 x); [inversion Esuf; subst; auto|inversion Esuf; subst; discriminate].
+Qed.
+
+Lemma hex_ok_no_dquote body x v : is_cc 120 88 x = true ->
+  parse_sas_hex_string (c_dquote :: body ++ [c_dquote; x]) = inl v -> ~ In c_dquote body.
+Proof.
+  intros Hx H Hin.
+  assert (Ax : is_ascii x = true).
+  { unfold is_cc in Hx. apply orb_true_iff in Hx. destruct Hx as [E|E]; apply N.eqb_eq in E; subst x; reflexivity. }
+  pose proof (HexString.parse_sas_hex_string_spec c_dquote body c_dquote x eq_refl eq_refl Ax) as Hs. cbv zeta in Hs.
+  pose proof (eq_trans (eq_sym Hs) H) as H2. clear H Hs. rename H2 into H.
+  destruct (forallb is_ascii_hexdigit (filter (fun c => negb (c =? c_comma)) body)) eqn:Ef; [|discriminate].
+  rewrite forallb_forall in Ef. specialize (Ef c_dquote).
+  assert (Hf : In c_dquote (filter (fun c => negb (c =? c_comma)) body)) by (apply filter_In; split; [exact Hin|reflexivity]).
+  specialize (Ef Hf). discriminate.
+Qed.
+
+Lemma MidQ_emit_error s0 X ad tn en rr k : MidQ s0 X ad tn en rr -> MidQ s0 (Core.emit_error X k) ad tn (prep_error X k :: en) rr.
+Proof.
+  intros [C L1 L2 T E R M L]. constructor; try assumption.
+  change (s_errs (Core.emit_error X k)) with (prep_error X k :: s_errs X). rewrite E. reflexivity.
+Qed.
+
+Section DqTail.
+  Variable bb : N.
+
+  (** no closing quote: the start token becomes an unterminated string literal *)
+  Lemma dq_tail_open s0 R ms t0 ts0 :
+    s_srclen s0 = blen (s_src s0) -> q_closed R = false ->
+    MidQ s0 (q_st R) (q_ad R) [] [] [] ->
+    s_src s0 = q_P R ++ q_pend R ++ [] ->
+    w_toks (s_buf s0) = t0 :: ts0 -> t_type t0 = T_StringExprStart ->
+    s_modes s0 = MStringExpr true :: ms ->
+    let ls := w_litlen (s_buf s0) in
+    let val := q_ad R ++ q_pend R in
+    let Y := if is_nil (q_ad R) then q_st R else st_addlit (q_st R) (q_pend R) in
+    let pl := if is_nil (q_ad R) then PNone else PStr ls (ls + blen val) in
+    run false (dq_tail ls R) (q_st R) =
+      Done tt (st_pop (Core.emit_error (st_upd' Y t0 ts0 CH_DEFAULT T_StringLiteral pl) E_UnterminatedStringLiteral) ms) /\
+    MidQ s0 Y (if is_nil (q_ad R) then [] else val) [] [] [].
+  Proof.
+    intros Hlen Ecl MR Hsrc Ht0 Hty Hm ls val Y pl.
+    assert (Hte : cur_byte (q_st R) = blen (q_P R) + blen (q_pend R)).
+    { rewrite (MidQ_cur_byte _ _ _ _ _ _ MR). cbn [blen]. rewrite Hlen, Hsrc, !blen_app. cbn [blen]. lia. }
+    pose proof (run_resolve_payload s0 (q_st R) (q_ad R) [] [] [] (q_P R) (q_pend R) [] None Hlen MR Hsrc Hte) as Hres. fold ls in Hres.
+    assert (MY : MidQ s0 Y (if is_nil (q_ad R) then [] else val) [] [] []).
+    { subst Y val. destruct (q_ad R) as [|a0 ad'] eqn:Ead; cbn [is_nil]; [exact MR|]. apply MidQ_addlit. exact MR. }
+    split; [|exact MY].
+    assert (HtY : w_toks (s_buf Y) = t0 :: ts0) by (rewrite (mq_toks _ _ _ _ _ _ MY); exact Ht0).
+    assert (HmY : s_modes Y = MStringExpr true :: ms).
+    { destruct (cfgq_fields _ _ (mq_cfg _ _ _ _ _ _ MY)) as (C1 & _). rewrite C1. exact Hm. }
+    assert (Hhandle : run false (handle_unterminated_str_expr pl) Y =
+              Done tt (st_pop (Core.emit_error (st_upd' Y t0 ts0 CH_DEFAULT T_StringLiteral pl) E_UnterminatedStringLiteral) ms)).
+    { unfold handle_unterminated_str_expr, assert_dbg, get, emit_error, Lexer1.pop_mode. cbn [bindP do run]. rewrite ex_assert. cbn [run].
+      rewrite ex_get. cbn [run].
+      replace (last_is_start (scrub Y)) with true
+        by (unfold last_is_start, last_tok_type, last_tok; change (s_buf (scrub Y)) with (s_buf Y); rewrite HtY; cbn [hd_error option_map]; rewrite Hty; reflexivity).
+      cbn [bindP do run]. rewrite (ex_upd Y _ _ _ _ _ HtY), (st_upd_eq Y _ _ _ _ _ HtY). cbn [run]. rewrite ex_emit_error. cbn [run].
+      rewrite ex_pop_mode. rewrite (pop_mode_cons (Core.emit_error (st_upd' Y t0 ts0 CH_DEFAULT T_StringLiteral pl) E_UnterminatedStringLiteral) (MStringExpr true) ms HmY). reflexivity. }
+    unfold dq_tail. rewrite Ecl. rewrite run_bindP, Hres.
+    subst Y pl val. destruct (is_nil (q_ad R)); exact Hhandle.
+  Qed.
+
+  (** a closing quote: suffix, optional hex decoding, the start token becomes the literal *)
+  Lemma dq_tail_closed s0 R rest'' pre W ms t0 ts0 :
+    s_srclen s0 = blen (s_src s0) -> q_closed R = true ->
+    MidQ s0 (q_st R) (q_ad R) [] [] (c_dquote :: rest'') ->
+    s_src s0 = q_P R ++ q_pend R ++ c_dquote :: rest'' ->
+    q_P R ++ q_pend R = pre ++ c_dquote :: W -> s_ct_byte s0 = blen pre + 1 ->
+    (q_ad R = [] \/ In c_dquote W) ->
+    w_toks (s_buf s0) = t0 :: ts0 -> s_modes s0 = MStringExpr true :: ms ->
+    let ls := w_litlen (s_buf s0) in
+    let val := q_ad R ++ q_pend R in
+    let ty := fst (suffix_model rest'') in
+    let extra := snd (suffix_model rest'') in
+    let tokt := c_dquote :: W ++ c_dquote :: firstn (N.to_nat extra) rest'' in
+    let plain := if is_nil (q_ad R) then ([], PNone) else (val, PStr ls (ls + blen val)) in
+    let res :=
+       if tt_eqb ty T_HexStringLiteral then
+         match parse_sas_hex_string tokt with
+         | inl v => (v, PStr ls (ls + blen v), [])
+         | inr e => (fst plain, snd plain, [e])
+         end
+       else (fst plain, snd plain, []) in
+    exists Y en,
+      run false (dq_tail ls R) (q_st R) = Done tt (st_pop (st_upd' Y t0 ts0 CH_DEFAULT ty (snd (fst res))) ms) /\
+      MidQ s0 Y (fst (fst res)) [] en (skipn_N (N.to_nat extra) rest'') /\
+      map (ev bb) en = map (fun k => (k, cur_byte Y + bb)) (snd res).
+  Proof.
+    intros Hlen Ecl MR Hsrc Hpre Hct Hesc Ht0 Hm ls val ty extra tokt plain res.
+    assert (Hte : cur_byte (q_st R) = blen (q_P R) + blen (q_pend R)).
+    { rewrite (MidQ_cur_byte _ _ _ _ _ _ MR). rewrite Hlen, Hsrc, !blen_app. lia. }
+    pose proof (run_resolve_payload s0 (q_st R) (q_ad R) [] [] _ (q_P R) (q_pend R) (c_dquote :: rest'') None Hlen MR Hsrc Hte) as Hres.
+    fold ls in Hres.
+    (* the state and the payload after [resolve_string_literal_payload] *)
+    set (XP := if is_nil (q_ad R) then q_st R else st_addlit (q_st R) (q_pend R)).
+    assert (MP : MidQ s0 XP (fst plain) [] [] (c_dquote :: rest'')).
+    { subst XP plain val. destruct (q_ad R) as [|a0 ad'] eqn:Ead; cbn [is_nil fst]; [exact MR|]. apply MidQ_addlit. exact MR. }
+    assert (Hrun0 : run false (dq_tail ls R) (q_st R) = run false (lex_double_quoted_literal (snd plain)) XP).
+    { unfold dq_tail. rewrite Ecl. rewrite run_bindP, Hres. subst XP plain. destruct (is_nil (q_ad R)); reflexivity. }
+    assert (Hnil : q_ad R = [] -> fst plain = []) by (intros E; subst plain; rewrite E; reflexivity).
+    clearbody XP plain. clear Hres.
+    rewrite Hrun0. clear Hrun0.
+    pose proof (MidQ_adv _ _ _ _ _ _ _ MP) as MQ. set (XQ := st_adv XP c_dquote rest'') in *.
+    pose proof (MidQ_suffix _ _ _ _ _ _ MQ) as ME. fold extra in ME.
+    pose proof (run_ending XQ rest'' (mq_rest _ _ _ _ _ _ MQ)) as Hend. fold ty in Hend.
+    set (Xe := st_suffix XQ rest'') in *.
+    destruct (cfgq_fields _ _ (mq_cfg _ _ _ _ _ _ ME)) as (C1 & _ & _ & _ & _ & C6).
+    assert (Hhead : forall (k : prog payload),
+              run false (lex_double_quoted_literal (snd plain)) XP =
+              run false (pl' <- (if tt_eqb ty T_HexStringLiteral then
+                                   s <- get ;;
+                                   textc <- do (OSrcSlice (s_ct_byte s - 1) (cur_byte s)) ;;
+                                   match parse_sas_hex_string textc with
+                                   | inl v => '(a, b) <- do (OAddStringLiteral v) ;; ret (PStr a b)
+                                   | inr e => emit_error e ;; ret (snd plain)
+                                   end
+                                 else ret (snd plain)) ;;
+                         do (OUpdateLastToken CH_DEFAULT ty pl') ;; Lexer1.pop_mode) Xe).
+    { intros _. unfold lex_double_quoted_literal, assert_dbg, advance_, ret. cbn [bindP do run]. rewrite ex_assert. cbn [run].
+      rewrite (ex_advance XP c_dquote rest'' (mq_rest _ _ _ _ _ _ MP)). cbn [run bindP do]. fold XQ.
+      rewrite run_bindP. rewrite Hend. reflexivity. }
+    rewrite (Hhead (ret PNone)). clear Hhead.
+    (* the common end: replace the start token, leave the mode *)
+    assert (Hfin : forall Y pl ad en rr, MidQ s0 Y ad [] en rr ->
+              run false (do (OUpdateLastToken CH_DEFAULT ty pl) ;; Lexer1.pop_mode) Y = Done tt (st_pop (st_upd' Y t0 ts0 CH_DEFAULT ty pl) ms)).
+    { intros Y pl ad en rr MY.
+      assert (HtY : w_toks (s_buf Y) = t0 :: ts0) by (rewrite (mq_toks _ _ _ _ _ _ MY); exact Ht0).
+      assert (HmY : s_modes Y = MStringExpr true :: ms).
+      { destruct (cfgq_fields _ _ (mq_cfg _ _ _ _ _ _ MY)) as (D1 & _). rewrite D1. exact Hm. }
+      unfold Lexer1.pop_mode. cbn [bindP do run]. rewrite (ex_upd Y _ _ _ _ _ HtY), (st_upd_eq Y _ _ _ _ _ HtY). cbn [run].
+      rewrite ex_pop_mode. rewrite (pop_mode_cons (st_upd' Y t0 ts0 CH_DEFAULT ty pl) (MStringExpr true) ms HmY). reflexivity. }
+    destruct (tt_eqb ty T_HexStringLiteral) eqn:Ehex.
+    - (* x suffix *)
+      destruct (suffix_hex rest'' ty extra ltac:(subst ty extra; destruct (suffix_model rest''); reflexivity) Ehex) as (x & r3 & Er3 & Hxx & Eex).
+      assert (Htokt : tokt = c_dquote :: W ++ [c_dquote; x]).
+      { subst tokt. rewrite Eex, Er3. reflexivity. }
+      assert (Hsrc_e : s_src Xe = pre ++ tokt ++ skipn_N (N.to_nat extra) rest'').
+      { destruct (cfgq_src s0 Xe (mq_cfg _ _ _ _ _ _ ME)) as [Hs _]. rewrite Hs, Hsrc.
+        rewrite app_assoc, Hpre. subst tokt. rewrite <- !app_assoc. cbn [app]. f_equal. f_equal. rewrite <- app_assoc. cbn [app]. f_equal. f_equal.
+        apply firstn_skipn_N. }
+      assert (Hcbe : cur_byte Xe = blen pre + blen tokt).
+      { rewrite (MidQ_cur_byte _ _ _ _ _ _ ME). destruct (cfgq_src s0 Xe (mq_cfg _ _ _ _ _ _ ME)) as [Hs Hsl].
+        rewrite Hlen, <- Hs, Hsrc_e, !blen_app. lia. }
+      assert (Hsl : src_slice Xe (s_ct_byte (scrub Xe) - 1) (cur_byte (scrub Xe)) = Some tokt).
+      { change (s_ct_byte (scrub Xe)) with (s_ct_byte Xe). change (cur_byte (scrub Xe)) with (cur_byte Xe).
+        rewrite C6, Hct, Hcbe. replace (blen pre + 1 - 1) with (blen pre) by lia.
+        apply (src_slice_spec Xe pre tokt _ Hsrc_e). }
+      rewrite run_bindP. unfold get at 1. rewrite run_bindP. cbn [do run]. rewrite ex_get. cbn [run].
+      rewrite run_bindP. cbn [do run]. rewrite (ex_src_slice Xe _ _ _ Hsl). cbn [run].
+      subst res. cbv zeta.
+      destruct (parse_sas_hex_string tokt) as [v|e] eqn:Ep.
+      + (* decoded: there was no doubled quote *)
+        assert (Hnoesc : fst plain = []).
+        { apply Hnil. destruct Hesc as [E|Hin]; [exact E|exfalso]. rewrite Htokt in Ep. exact (hex_ok_no_dquote W x v Hxx Ep Hin). }
+        cbn [fst snd]. rewrite Hnoesc in ME.
+        pose proof (MidQ_addlit _ _ _ _ _ _ v ME) as ME2. cbn [app] in ME2.
+        assert (Hlite : w_litlen (s_buf Xe) = ls) by (rewrite (mq_litlen _ _ _ _ _ _ ME); cbn [blen]; lia).
+        exists (st_addlit Xe v), []. split; [|split; [exact ME2|reflexivity]].
+        cbn [bindP do run]. rewrite ex_addlit. unfold ret. cbn [run bindP]. rewrite Hlite.
+        exact (Hfin _ _ _ _ _ ME2).
+      + (* not hexadecimal *)
+        cbn [fst snd]. pose proof (MidQ_emit_error _ _ _ _ _ _ e ME) as ME2.
+        exists (Core.emit_error Xe e), [prep_error Xe e]. split; [|split; [exact ME2|reflexivity]].
+        unfold emit_error, ret. cbn [bindP do run]. rewrite ex_emit_error. cbn [run].
+        exact (Hfin _ _ _ _ _ ME2).
+    - subst res. cbv zeta. cbn [fst snd]. exists Xe, []. split; [|split; [exact ME|reflexivity]].
+      unfold ret at 1. cbn [bindP]. exact (Hfin _ _ _ _ _ ME).
+  Qed.
+End DqTail.
+
+
+(** the scanned prefix only grows, and an escape leaves a quote in it *)
+Lemma dq_P : forall m l X ad pend P k,
+  exists W, q_P (st_dq m X l ad pend P k) = P ++ W /\ (q_ad (st_dq m X l ad pend P k) = ad \/ In c_dquote W).
+Proof.
+  induction m as [|m IH]; intros l X ad pend P k; [exists []; cbn; rewrite app_nil_r; auto|].
+  destruct l as [|x r]; [exists []; cbn; rewrite app_nil_r; auto|]. cbn [st_dq].
+  destruct (x =? c_amp); [apply IH|].
+  destruct (x =? c_pct); [apply IH|].
+  destruct (x =? NL); [apply IH|].
+  destruct (x =? c_dquote) eqn:Ex; [|apply IH].
+  destruct r as [|y r']; [exists []; cbn; rewrite app_nil_r; auto|].
+  destruct (y =? c_dquote) eqn:Ey; [|exists []; cbn; rewrite app_nil_r; auto].
+  match goal with |- context [st_dq m ?X' r' ?a ?p ?P' ?k'] => destruct (IH r' X' a p P' k') as (W & HW & _) end.
+  exists ((pend ++ [x; y]) ++ W). split; [rewrite HW, <- app_assoc; reflexivity|].
+  right. apply N.eqb_eq in Ex. subst x. apply in_or_app. left. apply in_or_app. right. left. reflexivity.
+Qed.
+
+Section DqClass.
+  Variable text : list char.
+  Variable bb : N.
+  Variable F : nat.
+  Variable msep : bool.
+  Variable limit : N.
+
+  Lemma lexeme_dquote r pos rs :
+    lexeme (c_dquote :: r) pos rs =
+    let l := c_dquote :: r in
+    let adv (n : N) : N := pos + blen (firstn (N.to_nat n) l) in
+    let set p ty (s : rstate) := mkRstate p (Some ty) (rs_lit s) (rs_litlen s) in
+    let '(n, closed, val, esc) := scan_quoted c_dquote r 1 [] false in
+    if negb closed then
+      let '(st', pl) := if esc then push_lit rs val else (rs, PNone) in
+      ([mkRtok T_StringLiteral CH_DEFAULT pos pl], [mkRerr E_UnterminatedStringLiteral (adv n)], n, set true T_StringLiteral st')
+    else
+      let after := skipn_N (N.to_nat n) l in
+      let '(ty, extra) := suffix_of after in
+      let total := n + extra in
+      let hexv := if tt_eqb ty T_HexStringLiteral
+                  then match parse_sas_hex_string (firstn (N.to_nat total) l) with inl v => Some (inl v) | inr e => Some (inr e) end
+                  else None in
+      let '(st', pl, errs) :=
+          match hexv with
+          | Some (inl v) => let '(s', p) := push_lit rs v in (s', p, [])
+          | Some (inr e) => let '(s', p) := if esc then push_lit rs val else (rs, PNone) in (s', p, [mkRerr e (adv total)])
+          | None => let '(s', p) := if esc then push_lit rs val else (rs, PNone) in (s', p, [])
+          end in
+      ([mkRtok ty CH_DEFAULT pos pl], errs, total, set true ty st').
+  Proof. unfold lexeme. close_tests. reflexivity. Qed.
+
+  (** the state in which the start token has become the literal and the mode has been left *)
+  Lemma dq_close s rs s0 Y added en rr Z ty pl t0 :
+    OC text s rs ->
+    w_toks (s_buf s0) = t0 :: w_toks (s_buf s) -> t_byte t0 = cur_byte s ->
+    w_lit (s_buf s0) = w_lit (s_buf s) -> w_litlen (s_buf s0) = w_litlen (s_buf s) ->
+    s_cp s0 = None -> s_mnl s0 = 0 -> s_pstat s0 = [true] ->
+    MidQ s0 Y added [] en rr ->
+    InvPos text Z ->
+    s_buf Z = s_buf (st_upd' Y t0 (w_toks (s_buf s)) CH_DEFAULT ty pl) ->
+    s_cur Z = s_cur Y -> s_modes Z = [MDefault] ->
+    s_cp Z = s_cp Y -> s_mnl Z = s_mnl Y -> s_pstat Z = s_pstat Y ->
+    OC text Z (mkRstate true (Some ty) (rev_append (utf8_encode_all added) (rs_lit rs)) (rs_litlen rs + blen added)) /\
+    c_rest (s_cur Z) = rr /\
+    map (tv bb) (w_toks (s_buf Z)) = (ty, CH_DEFAULT, cur_byte s + bb, pl) :: map (tv bb) (w_toks (s_buf s)).
+  Proof.
+    intros HOC Ht0 Hb0 Hlit0 Hll0 Hcp0 Hmnl0 Hps0 MY IZ Zbuf Zcur Zmodes Zcp Zmnl Zps.
+    destruct (cfgq_fields _ _ (mq_cfg _ _ _ _ _ _ MY)) as (C1 & C2 & C3 & C4 & C5 & C6).
+    split; [|split].
+    - constructor.
+      + exact IZ.
+      + exact Zmodes.
+      + rewrite Zcp, C2. exact Hcp0.
+      + rewrite Zmnl, C3. exact Hmnl0.
+      + rewrite Zps, C4. exact Hps0.
+      + unfold last_default_type, last_default_tok. rewrite Zbuf. reflexivity.
+      + rewrite Zbuf. change (w_lit (s_buf Y) = rev_append (utf8_encode_all added) (rs_lit rs)).
+        rewrite (mq_lit _ _ _ _ _ _ MY), Hlit0, (oc_lit _ _ _ HOC). apply utf8_push_spec.
+      + rewrite Zbuf. change (w_litlen (s_buf Y) = rs_litlen rs + blen added).
+        rewrite (mq_litlen _ _ _ _ _ _ MY), Hll0, (oc_litlen _ _ _ HOC). reflexivity.
+      + destruct (mq_lines _ _ _ _ _ _ MY) as [q Hq]. exists q. rewrite Zbuf. exact Hq.
+    - rewrite Zcur. exact (mq_rest _ _ _ _ _ _ MY).
+    - rewrite Zbuf. cbn [st_upd' s_buf w_toks set map tv t_type t_chan t_byte t_payload]. rewrite Hb0. reflexivity.
+  Qed.
+
+  Lemma InvPos_iters s i : InvPos text s -> InvPos text (s <| s_iters := i |>).
+  Proof. apply InvPos_core. repeat split. Qed.
+
+  Lemma dquote_setup s rs c' r' :
+    OC text s rs -> c_rest (s_cur s) = c_dquote :: c' :: r' -> (List.length (c_dquote :: c' :: r') < F)%nat ->
+    macro_free (c' :: r') = true ->
+    let si := s <| s_iters := s_iters s + 1 |> in
+    let SA := st_dqstart si (c' :: r') in
+    let SB := SA <| s_iters := s_iters SA + 1 |> in
+    let t0 := mkTok CH_DEFAULT T_StringExprStart (cur_byte s) (cur_char s) (w_nlines (s_buf s) - 1) PNone in
+    exists pre s0 R,
+      text = pre ++ c_dquote :: c' :: r' /\ cur_byte s = blen pre /\
+      run false (lex_token F msep c_dquote) si = Done tt SA /\
+      InvPos text SB /\ peek SA = Some c' /\ s_iters SA = s_iters s + 1 /\
+      R = st_dq (S (List.length (c' :: r'))) s0 (c' :: r') [] [] (pre ++ [c_dquote]) 0 /\
+      run false (lex_token F msep c') SB = run false (dq_tail (w_litlen (s_buf s0)) R) (q_st R) /\
+      MidQ s0 (q_st R) (q_ad R) [] [] (skipn_N (N.to_nat (q_k R)) (c' :: r')) /\
+      text = q_P R ++ q_pend R ++ skipn_N (N.to_nat (q_k R)) (c' :: r') /\
+      (if q_closed R then exists rest'', skipn_N (N.to_nat (q_k R)) (c' :: r') = c_dquote :: rest''
+       else skipn_N (N.to_nat (q_k R)) (c' :: r') = []) /\
+      s_src s0 = text /\ s_srclen s0 = blen (s_src s0) /\
+      w_toks (s_buf s0) = t0 :: w_toks (s_buf s) /\ s_errs s0 = s_errs s /\
+      w_lit (s_buf s0) = w_lit (s_buf s) /\ w_litlen (s_buf s0) = w_litlen (s_buf s) /\
+      s_cp s0 = None /\ s_mnl s0 = 0 /\ s_pstat s0 = [true] /\ s_modes s0 = [MStringExpr true; MDefault] /\
+      s_ct_byte s0 = blen pre + 1 /\
+      (s_iters s0, s_aborted s0, s_loop_detected s0) = (s_iters s + 1 + 1, s_aborted s, s_loop_detected s).
+  Proof.
+    intros HOC Hr Hf Hmf si SA SB t0.
+    pose proof (OC_iters text s rs (s_iters s + 1) HOC) as HOCi. fold si in HOCi.
+    destruct (ip_cur _ _ (oc_inv _ _ _ HOC)) as (pre & Epre & _ & Hrem). rewrite Hr in Epre, Hrem.
+    assert (Hsrc : s_src s = text) by exact (ip_src _ _ (oc_inv _ _ _ HOC)).
+    assert (Hsl : s_srclen s = blen text) by exact (ip_srclen _ _ (oc_inv _ _ _ HOC)).
+    assert (Hcb : cur_byte s = blen pre).
+    { pose proof (cur_byte_rest text s (oc_inv _ _ _ HOC)) as B. rewrite Hr in B. pose proof (f_equal blen Epre) as E. rewrite blen_app in E. lia. }
+    assert (Hrun1 : run false (lex_token F msep c_dquote) si = Done tt SA).
+    { apply (run_dquote_start F msep si (c' :: r') (rs_pending rs)).
+      - exact (oc_modes _ _ _ HOC).
+      - exact (oc_lines _ _ _ HOC).
+      - exact Hr.
+      - exact (oc_pstat _ _ _ HOC). }
+    assert (ISA : InvPos text SA) by exact (InvPos_run text _ si tt SA (oc_inv _ _ _ HOCi) Hrun1).
+    assert (ISB : InvPos text SB) by exact (InvPos_iters SA _ ISA).
+    assert (HmB : s_modes SB = MStringExpr true :: [MDefault]).
+    { change (s_modes SB) with (MStringExpr true :: s_modes s). rewrite (oc_modes _ _ _ HOC). reflexivity. }
+    assert (HlB : lines_pos SB) by exact (oc_lines _ _ _ HOC).
+    assert (HrB : c_rest (s_cur SB) = c' :: r') by reflexivity.
+    assert (HremB : c_rem (s_cur SB) = blen (c' :: r')).
+    { change (c_rem (s_cur SB)) with (c_rem (s_cur s) - utf8_len c_dquote). rewrite Hrem. cbn [blen]. lia. }
+    assert (HlisB : last_is_start SB = true) by reflexivity.
+    assert (HlenB : s_srclen SB = blen (s_src SB)).
+    { change (s_srclen SB) with (s_srclen s). change (s_src SB) with (s_src s). rewrite Hsl, Hsrc. reflexivity. }
+    assert (HsrcB : s_src SB = (pre ++ [c_dquote]) ++ c' :: r').
+    { change (s_src SB) with (s_src s). rewrite Hsrc, Epre, <- app_assoc. reflexivity. }
+    destruct (dq_entry F msep SB [MDefault] c' r' (pre ++ [c_dquote]) HmB HlB HrB HremB Hmf HlisB
+                ltac:(cbn [List.length] in Hf |- *; lia) HlenB HsrcB) as (E1 & MR & Hs0 & Hcl & _).
+    exists pre, (st_start SB), (st_dq (S (List.length (c' :: r'))) (st_start SB) (c' :: r') [] [] (pre ++ [c_dquote]) 0).
+    split; [exact Epre|]. split; [exact Hcb|]. split; [exact Hrun1|]. split; [exact ISB|]. split; [reflexivity|]. split; [reflexivity|].
+    split; [reflexivity|]. split; [exact E1|]. split; [exact MR|].
+    split; [rewrite <- Hs0; change (s_src (st_start SB)) with (s_src s); symmetry; exact Hsrc|].
+    split; [exact Hcl|].
+    split; [exact Hsrc|].
+    split; [change (s_srclen (st_start SB)) with (s_srclen s); change (s_src (st_start SB)) with (s_src s); rewrite Hsl, Hsrc; reflexivity|].
+    split; [reflexivity|]. split; [reflexivity|]. split; [reflexivity|]. split; [reflexivity|].
+    split; [exact (oc_cp _ _ _ HOC)|]. split; [exact (oc_mnl _ _ _ HOC)|]. split; [reflexivity|].
+    split; [change (s_modes (st_start SB)) with (MStringExpr true :: s_modes s); rewrite (oc_modes _ _ _ HOC); reflexivity|].
+    split; [|reflexivity].
+    change (s_ct_byte (st_start SB)) with (cur_byte SB). unfold cur_byte. rewrite HremB, HlenB, HsrcB, !blen_app. cbn [blen]. change (utf8_len c_dquote) with 1. lia.
+  Qed.
+
+  Lemma class_dquote c' r' : macro_free (c' :: r') = true -> lexeme_sim text bb F msep limit (c_dquote :: c' :: r').
+  Proof.
+    intros Hmf s rs HOC Hr Hf.
+    destruct (dquote_setup s rs c' r' HOC Hr Hf Hmf)
+      as (pre & s0 & R & Epre & Hcb & Hrun1 & ISB & HpkA & HitA & ER & Hrun2 & MR & Htext & Hcl & Hsrc0 & Hlen0 & Ht0 & Herr0 & Hlit0 & Hll0 &
+          Hcp0 & Hmnl0 & Hps0 & Hm0 & Hct0 & Hctr0).
+    cbv zeta in *.
+    set (si := s <| s_iters := s_iters s + 1 |>) in *.
+    set (SA := st_dqstart si (c' :: r')) in *.
+    set (SB := SA <| s_iters := s_iters SA + 1 |>) in *.
+    set (t0 := mkTok CH_DEFAULT T_StringExprStart (cur_byte s) (cur_char s) (w_nlines (s_buf s) - 1) PNone) in *.
+    set (l' := c' :: r') in *.
+    set (ls := w_litlen (s_buf s0)) in *.
+    assert (Hls : ls = rs_litlen rs) by (rewrite Hll0; exact (oc_litlen _ _ _ HOC)).
+    assert (Hl'len : (1 <= List.length l')%nat) by (subst l'; cbn [List.length]; lia).
+    (* the reference scan *)
+    pose proof (dq_scan (S (List.length l')) l' s0 [] [] (pre ++ [c_dquote]) 0 1 ltac:(lia)) as Hscan.
+    cbn [app rev is_nil negb] in Hscan. cbv zeta in Hscan. rewrite <- ER in Hscan. rewrite N.sub_0_r in Hscan.
+    rewrite (lexeme_dquote l' (cur_byte s + bb) rs). cbv zeta. rewrite Hscan.
+    (* the two iterations of the main loop *)
+    assert (Hloop : forall Z, run false (lex_token F msep c') SB = Done tt Z -> s_iters s + N.of_nat 2 <= limit ->
+              forall f last, exists last', run false (main_loop F msep limit (2 + f) last) s = run false (main_loop F msep limit f last') Z).
+    { intros Z HZ Hlim f last. eexists. cbn [Nat.add]. change (N.of_nat 2) with 2 in Hlim.
+      rewrite (main_loop_step F msep limit (S f) last s c_dquote SA).
+      - apply (main_loop_step F msep limit f _ SA c' Z).
+        + exact HpkA.
+        + apply N.ltb_ge. rewrite HitA. lia.
+        + exact HZ.
+      - unfold peek. rewrite Hr. reflexivity.
+      - apply N.ltb_ge. lia.
+      - exact Hrun1. }
+    (* what every way of ending the literal has in common *)
+    assert (Hgen : forall ty total added pl ks Y en rr Z,
+              run false (lex_token F msep c') SB = Done tt Z ->
+              MidQ s0 Y added [] en rr -> rr = skipn_N (N.to_nat total) (c_dquote :: l') -> 2 <= total ->
+              s_buf Z = s_buf (st_upd' Y t0 (w_toks (s_buf s)) CH_DEFAULT ty pl) -> s_cur Z = s_cur Y -> s_modes Z = [MDefault] ->
+              s_cp Z = s_cp Y -> s_mnl Z = s_mnl Y -> s_pstat Z = s_pstat Y ->
+              (s_iters Z, s_aborted Z) = (s_iters Y, s_aborted Y) ->
+              map (ev bb) (s_errs Z) = rev (map (fun k => (k, cur_byte Y + bb)) ks) ++ map (ev bb) (s_errs s0) ->
+              exists (kk : nat) s',
+                (1 <= kk)%nat /\ (N.of_nat kk <= 2 * N.min total (len (c_dquote :: l'))) /\ (1 <= total) /\
+                OC text s' (mkRstate true (Some ty) (rev_append (utf8_encode_all added) (rs_lit rs)) (rs_litlen rs + blen added)) /\
+                c_rest (s_cur s') = skipn_N (N.to_nat total) (c_dquote :: l') /\
+                map (tv bb) (w_toks (s_buf s')) = rev (map rv [mkRtok ty CH_DEFAULT (cur_byte s + bb) pl]) ++ map (tv bb) (w_toks (s_buf s)) /\
+                map (ev bb) (s_errs s') =
+                  rev (map rve (map (fun e => mkRerr e (cur_byte s + bb + blen (firstn (N.to_nat total) (c_dquote :: l')))) ks)) ++ map (ev bb) (s_errs s) /\
+                s_iters s' = s_iters s + N.of_nat kk /\ s_aborted s' = s_aborted s /\
+                (s_iters s + N.of_nat kk <= limit ->
+                 forall f last, exists last',
+                   run false (main_loop F msep limit (kk + f) last) s = run false (main_loop F msep limit f last') s')).
+    { intros ty total added pl ks Y en rr Z HZ MY Err Htot Zbuf Zcur Zmodes Zcp Zmnl Zps Zctr Zerrs.
+      assert (IZ : InvPos text Z) by exact (InvPos_run text _ SB tt Z ISB HZ).
+      destruct (dq_close s rs s0 Y added en rr Z ty pl t0 HOC Ht0 eq_refl Hlit0 Hll0 Hcp0 Hmnl0 Hps0 MY IZ Zbuf Zcur Zmodes Zcp Zmnl Zps)
+        as (OZ & RZ & TZ).
+      destruct (cfgq_fields _ _ (mq_cfg _ _ _ _ _ _ MY)) as (_ & _ & _ & _ & C5 & _).
+      pose proof (f_equal (fun t => fst (fst t)) (eq_trans C5 Hctr0)) as Hi. pose proof (f_equal (fun t => snd (fst t)) (eq_trans C5 Hctr0)) as Ha.
+      cbn [fst snd] in Hi, Ha.
+      pose proof (f_equal fst Zctr) as Zi. pose proof (f_equal snd Zctr) as Za. cbn [fst snd] in Zi, Za.
+      assert (Hpos : cur_byte Y + bb = cur_byte s + bb + blen (firstn (N.to_nat total) (c_dquote :: l'))).
+      { rewrite (MidQ_cur_byte _ _ _ _ _ _ MY). rewrite Err.
+        pose proof (blen_firstn_skipn (c_dquote :: l') (N.to_nat total)) as B1.
+        pose proof (cur_byte_rest text s (oc_inv _ _ _ HOC)) as B2. rewrite Hr in B2. fold l' in B2.
+        rewrite Hlen0, Hsrc0. lia. }
+      exists 2%nat, Z. split; [lia|]. split.
+      { change (N.of_nat 2) with 2. unfold len. cbn [List.length]. lia. }
+      split; [lia|]. split; [exact OZ|]. split; [rewrite RZ; exact Err|]. split; [exact TZ|].
+      split; [rewrite Zerrs, Herr0, map_map, Hpos; reflexivity|].
+      split; [rewrite Zi, Hi; change (N.of_nat 2) with 2; lia|]. split; [rewrite Za, Ha; reflexivity|].
+      exact (Hloop Z HZ). }
+    set (k := q_k R) in *.
+    destruct (q_closed R) eqn:Ecl; cbn [negb].
+    - (* closed *)
+      destruct Hcl as (rest'' & Hsk).
+      assert (Hafter : skipn_N (N.to_nat (1 + k + 1)) (c_dquote :: l') = rest'').
+      { replace (N.to_nat (1 + k + 1)) with (S (N.to_nat k + 1)) by lia. cbn [skipn_N].
+        rewrite <- (skipn_N_add 1 (N.to_nat k) l'), Hsk. reflexivity. }
+      rewrite Hafter, suffix_same.
+      destruct (suffix_model rest'') as [ty extra] eqn:Esuf.
+      set (total := 1 + k + 1 + extra).
+      destruct (dq_P (S (List.length l')) l' s0 [] [] (pre ++ [c_dquote]) 0) as (W & HW & HWq). rewrite <- ER in HW, HWq.
+      set (WW := W ++ q_pend R).
+      assert (Hl' : l' = WW ++ c_dquote :: rest'').
+      { pose proof Htext as H1. rewrite HW, Hsk, Epre in H1. rewrite <- !app_assoc in H1. apply app_inv_head in H1.
+        cbn [app] in H1. injection H1 as H1. subst WW. rewrite <- app_assoc. exact H1. }
+      assert (Hk : N.to_nat k = List.length WW).
+      { pose proof (skipn_N_len (N.to_nat k) l') as L1. rewrite Hsk in L1.
+        pose proof (f_equal (@List.length char) Hl') as L2. rewrite app_length in L2. cbn [List.length] in L1, L2. lia. }
+      assert (Htok : firstn (N.to_nat total) (c_dquote :: l') = c_dquote :: WW ++ c_dquote :: firstn (N.to_nat extra) rest'').
+      { subst total. replace (N.to_nat (1 + k + 1 + extra)) with (S (List.length WW + S (N.to_nat extra))) by lia. cbn [firstn]. f_equal.
+        rewrite Hl'. rewrite firstn_app_2. cbn [firstn]. reflexivity. }
+      assert (Hskip : skipn_N (N.to_nat extra) rest'' = skipn_N (N.to_nat total) (c_dquote :: l')).
+      { subst total. replace (N.to_nat (1 + k + 1 + extra)) with (S ((N.to_nat k + 1) + N.to_nat extra)) by lia. cbn [skipn_N].
+        rewrite <- (skipn_N_add (N.to_nat extra) (N.to_nat k + 1) l'), <- (skipn_N_add 1 (N.to_nat k) l'), Hsk. reflexivity. }
+      assert (MR' : MidQ s0 (q_st R) (q_ad R) [] [] (c_dquote :: rest'')) by (rewrite <- Hsk; exact MR).
+      assert (Hsrc' : s_src s0 = q_P R ++ q_pend R ++ c_dquote :: rest'') by (rewrite Hsrc0, <- Hsk; exact Htext).
+      assert (Hpre : q_P R ++ q_pend R = pre ++ c_dquote :: WW) by (rewrite HW; subst WW; rewrite <- !app_assoc; reflexivity).
+      assert (Hesc : q_ad R = [] \/ In c_dquote WW).
+      { destruct HWq as [E|Hin]; [left; exact E|right; subst WW; apply in_or_app; left; exact Hin]. }
+      pose proof (dq_tail_closed bb s0 R rest'' pre WW [MDefault] t0 (w_toks (s_buf s)) Hlen0 Ecl MR' Hsrc' Hpre Hct0 Hesc Ht0 Hm0) as HT.
+      cbv zeta in HT. rewrite Esuf in HT. cbn [fst snd] in HT. rewrite <- Htok in HT. fold ls in HT.
+      set (val := q_ad R ++ q_pend R) in *.
+      (* a run that ends in [st_pop (st_upd' Y ...)] *)
+      assert (Hcl2 : forall added pl ks Y en,
+                run false (dq_tail ls R) (q_st R) = Done tt (st_pop (st_upd' Y t0 (w_toks (s_buf s)) CH_DEFAULT ty pl) [MDefault]) ->
+                MidQ s0 Y added [] en (skipn_N (N.to_nat extra) rest'') ->
+                map (ev bb) en = map (fun k => (k, cur_byte Y + bb)) ks -> (List.length ks <= 1)%nat ->
+                exists (kk : nat) s',
+                  (1 <= kk)%nat /\ (N.of_nat kk <= 2 * N.min total (len (c_dquote :: l'))) /\ (1 <= total) /\
+                  OC text s' (mkRstate true (Some ty) (rev_append (utf8_encode_all added) (rs_lit rs)) (rs_litlen rs + blen added)) /\
+                  c_rest (s_cur s') = skipn_N (N.to_nat total) (c_dquote :: l') /\
+                  map (tv bb) (w_toks (s_buf s')) = rev (map rv [mkRtok ty CH_DEFAULT (cur_byte s + bb) pl]) ++ map (tv bb) (w_toks (s_buf s)) /\
+                  map (ev bb) (s_errs s') =
+                    rev (map rve (map (fun e => mkRerr e (cur_byte s + bb + blen (firstn (N.to_nat total) (c_dquote :: l')))) ks)) ++ map (ev bb) (s_errs s) /\
+                  s_iters s' = s_iters s + N.of_nat kk /\ s_aborted s' = s_aborted s /\
+                  (s_iters s + N.of_nat kk <= limit ->
+                   forall f last, exists last',
+                     run false (main_loop F msep limit (kk + f) last) s = run false (main_loop F msep limit f last') s')).
+      { intros added pl ks Y en HrunT MY Hen Hks.
+        apply (Hgen ty total added pl ks Y en _ (st_pop (st_upd' Y t0 (w_toks (s_buf s)) CH_DEFAULT ty pl) [MDefault])
+                 ltac:(rewrite Hrun2; exact HrunT) MY Hskip ltac:(subst total; lia) eq_refl eq_refl eq_refl eq_refl eq_refl eq_refl eq_refl).
+        change (s_errs (st_pop (st_upd' Y t0 (w_toks (s_buf s)) CH_DEFAULT ty pl) [MDefault])) with (s_errs Y).
+        rewrite (mq_errs _ _ _ _ _ _ MY), map_app, Hen. f_equal.
+        destruct ks as [|e1 [|e2 ks']]; [reflexivity|reflexivity|cbn [List.length] in Hks; lia]. }
+      revert HT. destruct (tt_eqb ty T_HexStringLiteral) eqn:Ehex.
+      + destruct (parse_sas_hex_string (firstn (N.to_nat total) (c_dquote :: l'))) as [v|e] eqn:Ep.
+        * cbn [fst snd]. intros (Y & en & HrunT & MY & Hen). rewrite push_lit_spec. rewrite <- Hls.
+          pose proof (Hcl2 v (PStr ls (ls + blen v)) [] Y en HrunT MY Hen ltac:(cbn; lia)) as G. rewrite <- Hls in G. exact G.
+        * destruct (is_nil (q_ad R)) eqn:En; cbn [fst snd negb]; intros (Y & en & HrunT & MY & Hen).
+          -- pose proof (Hcl2 [] PNone [e] Y en HrunT MY Hen ltac:(cbn; lia)) as G.
+             cbn [utf8_encode_all flat_map rev_append blen] in G. rewrite N.add_0_r in G. exact G.
+          -- rewrite push_lit_spec. rewrite <- Hls.
+             pose proof (Hcl2 val (PStr ls (ls + blen val)) [e] Y en HrunT MY Hen ltac:(cbn; lia)) as G. rewrite <- Hls in G. exact G.
+      + destruct (is_nil (q_ad R)) eqn:En; cbn [fst snd negb]; intros (Y & en & HrunT & MY & Hen).
+        * pose proof (Hcl2 [] PNone [] Y en HrunT MY Hen ltac:(cbn; lia)) as G.
+          cbn [utf8_encode_all flat_map rev_append blen] in G. rewrite N.add_0_r in G. exact G.
+        * rewrite push_lit_spec. rewrite <- Hls.
+          pose proof (Hcl2 val (PStr ls (ls + blen val)) [] Y en HrunT MY Hen ltac:(cbn; lia)) as G. rewrite <- Hls in G. exact G.
+    - (* no closing quote *)
+      rewrite N.add_0_r.
+      assert (Hk1 : 1 <= k).
+      { pose proof (skipn_N_len (N.to_nat k) l') as L1. rewrite Hcl in L1. cbn [List.length] in L1. lia. }
+      assert (Hskip : [] = skipn_N (N.to_nat (1 + k)) (c_dquote :: l')).
+      { replace (N.to_nat (1 + k)) with (S (N.to_nat k)) by lia. cbn [skipn_N]. symmetry. exact Hcl. }
+      assert (MR' : MidQ s0 (q_st R) (q_ad R) [] [] []) by (rewrite <- Hcl; exact MR).
+      assert (Hsrc' : s_src s0 = q_P R ++ q_pend R ++ []) by (rewrite Hsrc0, <- Hcl; exact Htext).
+      destruct (dq_tail_open s0 R [MDefault] t0 (w_toks (s_buf s)) Hlen0 Ecl MR' Hsrc' Ht0 eq_refl Hm0) as (HrunT & MY).
+      cbv zeta in HrunT, MY. fold ls in HrunT.
+      set (val := q_ad R ++ q_pend R) in *.
+      assert (Hop : forall added pl Y,
+                run false (dq_tail ls R) (q_st R) =
+                  Done tt (st_pop (Core.emit_error (st_upd' Y t0 (w_toks (s_buf s)) CH_DEFAULT T_StringLiteral pl) E_UnterminatedStringLiteral) [MDefault]) ->
+                MidQ s0 Y added [] [] [] ->
+                exists (kk : nat) s',
+                  (1 <= kk)%nat /\ (N.of_nat kk <= 2 * N.min (1 + k) (len (c_dquote :: l'))) /\ (1 <= 1 + k) /\
+                  OC text s' (mkRstate true (Some T_StringLiteral) (rev_append (utf8_encode_all added) (rs_lit rs)) (rs_litlen rs + blen added)) /\
+                  c_rest (s_cur s') = skipn_N (N.to_nat (1 + k)) (c_dquote :: l') /\
+                  map (tv bb) (w_toks (s_buf s')) = rev (map rv [mkRtok T_StringLiteral CH_DEFAULT (cur_byte s + bb) pl]) ++ map (tv bb) (w_toks (s_buf s)) /\
+                  map (ev bb) (s_errs s') =
+                    rev (map rve [mkRerr E_UnterminatedStringLiteral (cur_byte s + bb + blen (firstn (N.to_nat (1 + k)) (c_dquote :: l')))]) ++ map (ev bb) (s_errs s) /\
+                  s_iters s' = s_iters s + N.of_nat kk /\ s_aborted s' = s_aborted s /\
+                  (s_iters s + N.of_nat kk <= limit ->
+                   forall f last, exists last',
+                     run false (main_loop F msep limit (kk + f) last) s = run false (main_loop F msep limit f last') s')).
+      { intros added pl Y HrunY MYY.
+        apply (Hgen T_StringLiteral (1 + k) added pl [E_UnterminatedStringLiteral] Y [] []
+                 (st_pop (Core.emit_error (st_upd' Y t0 (w_toks (s_buf s)) CH_DEFAULT T_StringLiteral pl) E_UnterminatedStringLiteral) [MDefault])
+                 ltac:(rewrite Hrun2; exact HrunY) MYY Hskip ltac:(lia) eq_refl eq_refl eq_refl eq_refl eq_refl eq_refl eq_refl).
+        change (s_errs (st_pop (Core.emit_error (st_upd' Y t0 (w_toks (s_buf s)) CH_DEFAULT T_StringLiteral pl) E_UnterminatedStringLiteral) [MDefault]))
+          with (prep_error (st_upd' Y t0 (w_toks (s_buf s)) CH_DEFAULT T_StringLiteral pl) E_UnterminatedStringLiteral :: s_errs Y).
+        rewrite (mq_errs _ _ _ _ _ _ MYY). reflexivity. }
+      destruct (is_nil (q_ad R)) eqn:En; cbn [negb].
+      + pose proof (Hop [] PNone (q_st R) HrunT MY) as G.
+        cbn [utf8_encode_all flat_map rev_append blen] in G. rewrite N.add_0_r in G. exact G.
+      + rewrite push_lit_spec. rewrite <- Hls.
+        pose proof (Hop val (PStr ls (ls + blen val)) _ HrunT MY) as G. rewrite <- Hls in G. exact G.
+  Qed.
+End DqClass.
